@@ -294,7 +294,8 @@ def jobs(tier):
     N = 3
     for a0 in range(NA):
         # A: every tool followed by one of the 13 consumption-distinct tools over the shared iterator
-        add(N=N, LP=2, apps=13, D=1, EX=0, J=(1, 2), fix={"a0": a0, "n": N, "d1": 0}, fl="agen")
+        for jr in ((1, 1), (2, 2)) if a0 == 8 else ((1, 2),):  # merge first: split by items taken
+            add(N=N, LP=2, apps=13, D=1, EX=0, J=jr, fix={"a0": a0, "n": N, "d1": 0}, fl="agen")
         # B: every tool alone: all lengths, items taken, dispositions, exit by exception before/after
         add(N=N, LP=1, apps=NA, D=1, EX=1, fix={"a0": a0}, fl=("acls" if a0 % 2 else "agen"))
     # C: nesting depth 2..3 (application innermost, outer handles used after inner exit)
